@@ -98,6 +98,16 @@ func genDual(seed uint64, maxFork h.Fork, tweak func(o *h.GenOpts)) DualCase {
 	n := 1 + r.Intn(4)
 	w := h.GenWorld(r, n, o)
 	dc := DualCase{World: w, Env: h.EnvSpec{Fork: f, ExtraEips: genExtraEips(r, f)}}
+	if m := h.Mix(seed, 0x707ce); m%12 == 0 {
+		// an account whose nonce cannot be incremented any more (creations by it are refused)
+		if a := w.Get(h.ContractAddr(int(m>>8) % n)); a != nil {
+			a.Nonce = ^uint64(0)
+		}
+	} else if m%12 == 1 {
+		if a := w.Get(h.Sender); a != nil {
+			a.Nonce = ^uint64(0)
+		}
+	}
 	if m := h.Mix(seed, 0xb10c); m%10 < 3 { // (drawn apart from r: the block height does not perturb the program)
 		dc.Env.Number = []uint64{1, 255, 256, 257, 258, 300, 5000, 1 << 33}[(m>>8)%8]
 	}
